@@ -143,7 +143,12 @@ type Op struct {
 type Case struct {
 	Init map[string]int `json:"init"`
 	Ops  []Op           `json:"ops"`
+	// Proc: the node processor registered on every engine of the case (see proc_test.go);
+	// "" = none.
+	Proc string `json:"proc,omitempty"`
 }
+
+type memfsFS = memfs.FS
 
 func (o Op) isWrite() bool { return o.Op == "edit" || o.Op == "recreate" || o.Op == "invalid" }
 
@@ -221,8 +226,11 @@ func execute(c Case) (error, stats) {
 		fs.Write(f, variants[f][v].Content, time.Unix(t0, 0))
 	}
 	// The long-lived engines.
-	root := vuego.NewFS(fs)
-	vue := vuego.NewVue(fs)
+	if !validProc(c.Proc) {
+		return fmt.Errorf("harness: unknown processor %q", c.Proc), s
+	}
+	root := newRoot(fs, c.Proc)
+	vue := newVue(fs, c.Proc)
 	failedBefore := false
 
 	for i, op := range c.Ops {
@@ -273,12 +281,13 @@ func execute(c Case) (error, stats) {
 			var want string
 			var wantErr error
 			if viewIndex(op.Entry) == 1 {
-				want, wantErr = doRender(op.Entry, target, op.D, nil, vuego.NewVue(snap))
+				want, wantErr = doRender(op.Entry, target, op.D, nil, newVue(snap, c.Proc))
 			} else {
-				want, wantErr = doRender(op.Entry, target, op.D, vuego.NewFS(snap), nil)
+				want, wantErr = doRender(op.Entry, target, op.D, newRoot(snap, c.Proc), nil)
 			}
 			modelOK := m.expectOK(op.Entry, target)
-			if (wantErr == nil) != modelOK {
+			// (a processor that removes text can remove the failing expression: not counted)
+			if (wantErr == nil) != modelOK && c.Proc != procRemove && c.Proc != procAll {
 				s.modelMismatchCount++
 				if s.modelMismatch == "" {
 					s.modelMismatch = fmt.Sprintf("step %d %s(%s): fresh engine err=%v but the harness model expected ok=%v", i, op.Entry, target, wantErr, modelOK)
@@ -400,6 +409,11 @@ func classify(c Case) (bool, []string) {
 	if s.staleRegion > 0 {
 		cls = append(cls, "asserted:old-mtime-back-after-engine-saw-other-state")
 	}
+	if c.Proc == procNone {
+		cls = append(cls, "proc:none")
+	} else {
+		cls = append(cls, "proc:"+c.Proc)
+	}
 	if _, ok := c.Init[fBase]; ok {
 		cls = append(cls, "init:base-present")
 	} else {
@@ -483,8 +497,8 @@ var alphabet = []letter{
 var enumPair = map[string][2]int{fPage: {8, 9}, fComp: {1, 0}, fMain: {1, 0}, fBase: {0, 1}}
 var enumBad = map[string]int{fPage: 5, fComp: 3, fMain: 3, fBase: 2}
 
-func buildHistory(init map[string]int, word []int) Case {
-	c := Case{Init: init}
+func buildHistory(init map[string]int, word []int, proc string) Case {
+	c := Case{Init: init, Proc: proc}
 	writes := map[string]int{}
 	exists := map[string]bool{}
 	for f := range init {
@@ -515,8 +529,9 @@ func buildHistory(init map[string]int, word []int) Case {
 	return c
 }
 
-// enumerate runs every history of length <= maxLen[i] for initial configuration i.
-func enumerate(t *testing.T, maxLen []int) {
+// enumerate runs every history of length <= maxLen[i] for initial configuration i, for each
+// of the given processors.
+func enumerate(t *testing.T, kind string, maxLen []int, procs []string) {
 	shard, shards := run.Shard()
 	inits := []map[string]int{
 		{fPage: 9, fComp: 0, fMain: 0},           // page names layout main, no default layout
@@ -539,18 +554,20 @@ func enumerate(t *testing.T, maxLen []int) {
 				if len(word) > maxLen[ii] {
 					continue
 				}
-				n++
-				if n%shards != shard {
-					continue
-				}
-				c := buildHistory(init, word)
-				if _, ids := sanitize(c, avoid); len(ids) > 0 {
-					rec.Excluded(ids[0])
-					continue
-				}
-				nt, cls := classify(c)
-				if !run.Each(rec, "enum", c, nt, append(cls, "enum"), check) {
-					return false
+				for _, proc := range procs {
+					n++
+					if n%shards != shard {
+						continue
+					}
+					c := buildHistory(init, word, proc)
+					if _, ids := sanitize(c, avoid); len(ids) > 0 {
+						rec.Excluded(ids[0])
+						continue
+					}
+					nt, cls := classify(c)
+					if !run.Each(rec, kind, c, nt, append(cls, kind), check) {
+						return false
+					}
 				}
 			}
 		}
@@ -569,7 +586,7 @@ func enumerate(t *testing.T, maxLen []int) {
 	}
 	complete = rec2()
 	if complete {
-		rec.Exhaustive(fmt.Sprintf("all histories over the %d-letter alphabet that end in a render: length 1..%d from configuration A (page names layout main, no default layout), length 1..%d from configuration B (page without layout, default layout present, main chains to base) (%d histories)", len(alphabet), maxLen[0], maxLen[1], n))
+		rec.Exhaustive(fmt.Sprintf("processors %q: all histories over the %d-letter alphabet that end in a render: length 1..%d from configuration A (page names layout main, no default layout), length 1..%d from configuration B (page without layout, default layout present, main chains to base) (%d histories)", procs, len(alphabet), maxLen[0], maxLen[1], n))
 	}
 }
 
@@ -577,6 +594,9 @@ func enumerate(t *testing.T, maxLen []int) {
 
 func genCase(t *rapid.T) Case {
 	c := Case{Init: map[string]int{}}
+	if rapid.Bool().Draw(t, "with-processor") {
+		c.Proc = rapid.SampledFrom(allProcs[1:]).Draw(t, "processor")
+	}
 	cur := map[string]int{fPage: -1, fComp: -1, fMain: -1, fBase: -1} // -1 = absent
 	pick := func(label string, xs []int) int { return rapid.SampledFrom(xs).Draw(t, label) }
 	c.Init[fPage] = pick("init-page", []int{1, 8, 0, 9, 2, 3, 4, 7})
@@ -693,7 +713,9 @@ func TestProp(t *testing.T) {
 	defer run.Finish(t, rec)
 	run.Witnesses(rec, prop, replay)
 
-	enumerate(t, run.Pick([]int{4, 3}, []int{5, 5}))
+	enumerate(t, "enum", run.Pick([]int{4, 3}, []int{5, 5}), []string{procNone})
+	// the same with a registered node processor that edits its nodes in place
+	enumerate(t, "enum-proc", run.Pick([]int{3, 2}, []int{4, 3}), allProcs[1:])
 	run.Rapid(t, rec, "history", genCase, classify, check)
 }
 
